@@ -1,7 +1,7 @@
 # -*- coding: utf-8 -*-
 """C11 — stepping by n is a consistent group action on every time unit and cycle."""
 import re
-from rlib import T, table, py, fn_site, Bottom, Unanalysable
+from rlib import T, table, py, fn_site, Bottom, Unanalysable, Opt
 from pete import SV, RInt, CellV, NONE
 from prog import walk
 from calmodel import CalModel, typical_terms, synthetic_months, with_lengths
@@ -129,6 +129,14 @@ def run(ctx):
                     for b in (-2, 0, 5):
                         if py(t.m(t.m(xa, 'next', b), 'get_index')) != py(t.m(t.m(x, 'next', a + b), 'get_index')):
                             return '%s: next(%d).next(%d) != next(%d)' % (ty, a, b, a + b)
+            # the hand-written `==`: the same element (also reached after a whole turn) is equal, elements with different names are not
+            for i in sorted(set([0, 1, size // 2, size - 1])):
+                x = mk(i)
+                if not I.values_equal(x, mk(i)) or not I.values_equal(x, mk(i + size)) or not I.values_equal(t.m(x, 'next', 0), x) or not I.values_equal(t.m(t.m(x, 'next', 5), 'next', -5), x):
+                    return '%s: `==` denies that from_index(%d) equals itself (rebuilt / after a whole turn / after next(0) / after next(5).next(-5))' % (ty, i)
+                j = (i + 1) % size
+                if names[j] != names[i] and I.values_equal(x, mk(j)):
+                    return '%s: `==` identifies the different elements %d and %d' % (ty, i, j)
             if fnm is not None:
                 for i, nm in enumerate(names):
                     first = names.index(nm)
@@ -338,6 +346,59 @@ def run(ctx):
     table(ctx, 'PETE-SCENARIO', 'LunarWeek::next', doml, lw, lambda x: (7 * x[3], 0), 'a lunar week stepped by n starts exactly 7n days later (forwards and backwards, into and out of leap months); stepping back returns',
           lambda x: '%s-%s week=%d start=%d n=%d' % (recs[x[0]]['year'], recs[x[0]]['month'], x[1], x[2], x[3]), fn_site(p, 'LunarWeek::next'))
     CalModel(I, typical_terms(range(Y - 1, Y + 6)), months)
+
+    # ---- the hand-written `==` of every unit: "returns x" is observed through it
+    ctx.rule('EQ-UNIT', "every unit's hand-written `==`: a value equals itself rebuilt from the same arguments and after next(0) / next(n).next(-n); where equality is field-wise, a value stepped by n != 0 is not equal to the original")
+    cme = CalModel(I, typical_terms(range(Y - 1, Y + 6)), months)
+    r4, r5 = inner[4], inner[5]
+    leap_rec = [r for r in inner if r['month'] < 0][0]
+    # (label, builder, steps that must return, steps that must separate (None: equality is by name, separation not required))
+    units = [
+        ('SolarYear', lambda: I.call('SolarYear::from_year', [2023]), (1, -7), (1, -1, 60)),
+        ('SolarHalfYear', lambda: I.call('SolarHalfYear::from_index', [2023, 1]), (1, -3), (1, 2, -2)),
+        ('SolarSeason', lambda: I.call('SolarSeason::from_index', [2023, 3]), (1, -5), (1, 4, -4)),
+        ('SolarMonth', lambda: I.call('SolarMonth::from_ym', [2023, 12]), (1, -13), (1, 12, -12)),
+        ('SolarWeek', lambda: I.call('SolarWeek::from_ym', [2024, 2, 1, 1]), (1, -6), (1, -1, 5)),
+        ('SolarDay', lambda: I.call('SolarDay::from_ymd', [1582, 10, 4]), (1, -400), (1, -1, 365, 366)),
+        ('SolarTime', lambda: I.call('SolarTime::from_ymd_hms', [2023, 12, 31, 23, 59, 59]), (1, -86400), (1, 60, 3600, 86400)),
+        ('JulianDay', lambda: I.call('JulianDay::from_julian_day', [2451545.25]), (), None),
+        ('SixtyCycleYear', lambda: I.call('SixtyCycleYear::from_year', [2023]), (1, -61), (1, -1)),
+        ('LunarYear', lambda: I.call('LunarYear::from_year', [Y + 1]), (1, -1), (1, -1)),
+        ('LunarSeason', lambda: I.call('LunarSeason::from_index', [2]), (1, -5), None),
+        ('LunarMonth', lambda: cme.lunar_month_sv(r4), (1, -2), (1, -1, 12, 13)),
+        ('LunarMonth(leap)', lambda: cme.lunar_month_sv(leap_rec), (1, -1), (1, -1)),
+        ('LunarWeek', lambda: I.call('LunarWeek::from_ym', [r5['year'], r5['month'], 1, 0]), (1, -3), (1, -1)),
+        ('LunarDay', lambda: I.call('LunarDay::from_ymd', [leap_rec['year'], leap_rec['month'], 1]), (1, -1, 30), (1, -1, 29, 30, 59)),
+        ('LunarHour', lambda: I.call('LunarHour::from_ymd_hms', [r4['year'], r4['month'], 15, 23, 30, 15]), (1, -13), (1, -1, 12)),
+        ('SixtyCycleDay', lambda: I.call('SixtyCycleDay::from_solar_day', [cme.solar_day_n(r4['first'] + 3)]), (1, -7), None),
+        ('SixtyCycleHour', lambda: I.call('SixtyCycleHour::from_solar_time', [cme.solar_time_n(r4['first'] + 3, 23 * 3600 + 10)]), (7200, -7200), None),
+        ('SolarFestival', lambda: I.call('SolarFestival::from_index', [2023, 3]).v, (1, -4), None),
+        ('LegalHoliday', lambda: I.call('LegalHoliday::from_ymd', [2024, 2, 10]).v, (), None),
+    ]
+    n_units = 0
+    for label, build, back, sep in units:
+        def one_unit(label=label, build=build, back=back, sep=sep):
+            x = build()
+            if x is None or x is NONE:
+                raise Unanalysable('%s: sample value could not be built' % label)
+            if not I.values_equal(x, build()):
+                return '%s: `==` denies that two values built from the same arguments are equal' % label
+            if back and not I.values_equal((lambda v: v.v if isinstance(v, Opt) else v)(t.m(x, 'next', 0)), x):
+                return '%s: x.next(0) == x is false' % label
+            unw = lambda v: v.v if isinstance(v, Opt) else v
+            for n in back:
+                if not I.values_equal(unw(t.m(unw(t.m(x, 'next', n)), 'next', -n)), x):
+                    return '%s: x.next(%d).next(%d) == x is false' % (label, n, -n)
+            for n in (sep or ()):
+                if I.values_equal(t.m(x, 'next', n), x):
+                    return '%s: x.next(%d) == x is true although the value moved by %d units' % (label, n, n)
+            return None
+        ty0 = label.split('(')[0]
+        if p.find_method(ty0, 'eq') is None and not any(tr.startswith('PartialEq') for tr in p.trait_impls.get(ty0, {})):
+            continue
+        n_units += 1
+        ctx.guard('EQ-UNIT', 'EQ:%s' % label, one_unit, 2 + len(back) + len(sep or ()), {'unit': label})
+    ctx.floor('EQ-UNIT', 'units with a hand-written equality that were exercised', n_units, 20)
 
     ctx.assumptions.append('lunar month table and civil day count replaced by scenario / oracle stand-ins (C02/C03, C01)')
     ctx.not_decided.append('group laws of lunar month / day stepping on the REAL lunar calendar (month records are numeric: C03)')
